@@ -22,15 +22,18 @@ def unique_harness(ctx, cfg):
     shape = tuple(cfg["shape"])
     ctx.allow_realise = cfg.get("max_label") is not None
     multiseg = cfg.get("multiseg", False)
-    a = SArr.fresh("s", shape, np.int32)
+    dt = np.dtype(cfg.get("dtype", "int32"))
+    a = SArr.fresh("s", shape, dt)
     inp = a.c.copy()
     for x in inp.flat:
         ctx.add(x >= 0)
+        ctx.add(x <= int(np.iinfo(dt).max))  # a cell holds a value of its dtype
         if cfg.get("max_label") is not None:
             ctx.add(x <= cfg["max_label"])  # bounded run: unmodelled numpy calls are followed by realisation
     ctx.input("cells", [inp[idx] for idx in np.ndindex(*shape)])
     ctx.input("shape", list(shape))
     ctx.input("multiseg", multiseg)
+    ctx.input("dtype", dt.name)
     ctx.env.update(cells=inp)
     try:
         out = su.ensure_unique_labels(a, multiseg=multiseg)
@@ -66,7 +69,7 @@ def unique_harness(ctx, cfg):
 def unique_replay(f):
     inp = f["inputs"]
     shape = tuple(inp["shape"])
-    arr = np.array(inp["cells"], dtype=np.int64).reshape(shape)
+    arr = np.array(inp["cells"], dtype=np.dtype(inp.get("dtype", "int64"))).reshape(shape)
     before = arr.copy()
     try:
         out = su_real().ensure_unique_labels(arr, multiseg=inp["multiseg"])
